@@ -115,7 +115,13 @@ func genC20(r *core.Rand, p *core.Plan) {
 				a = append(a, int64(r.Intn(7))) // not notify-received: irrelevant on re-broadcast
 			}
 			p.Ops = append(p.Ops, core.Op{K: "resend-answers", A: a})
-			p.Ops = append(p.Ops, core.Op{K: "start"})
+			if r.Chance(1, 3) {
+				// a publish attempted after the wallet is loaded and before
+				// it has a backend (backend down at start-up)
+				p.Ops = append(p.Ops, core.Op{K: "start", A: []int64{0, int64(r.Range(1, 4))}})
+			} else {
+				p.Ops = append(p.Ops, core.Op{K: "start"})
+			}
 		case 6:
 			p.Ops = append(p.Ops, core.Op{K: "fund", A: []int64{int64(r.Intn(4)), int64(r.Range(5, 80)) * 1e6}})
 		case 7:
@@ -470,6 +476,52 @@ func (rs *runState) publish(step int, op core.Op) {
 			x.fail("accepted-publish-not-recorded", "PublishTransaction succeeded but %s is not recorded", short(h))
 		}
 		x.sent = append(x.sent, tx)
+	}
+}
+
+// publishDetached: PublishTransaction of a built transaction while the wallet
+// has no chain backend. The hand-over cannot be completed: whatever the call
+// returns, an error means the transaction left no trace.
+func (rs *runState) publishDetached(step int, sel int64) {
+	x := rs.x
+	env := x.env
+	if len(x.built) == 0 || env.Failed() {
+		return
+	}
+	tx := x.built[int(uint64(sel)%uint64(len(x.built)))]
+	h := tx.TxHash()
+	before, err := x.snap()
+	if err != nil {
+		x.fail("query-failed", "snapshot: %v", err)
+		return
+	}
+	if before.unmined[h] || x.node.Confirmed(h) >= 0 || x.node.InMempool(h) {
+		return
+	}
+	perr := x.w.PublishTransaction(tx, "")
+	env.Count("op.PublishTransaction.without-backend")
+	env.Eff()
+	after, serr := x.snap()
+	if serr != nil {
+		x.fail("query-failed", "snapshot: %v", serr)
+		return
+	}
+	env.Logf("%d publish-detached tx=%s err=%v", step, short(h), perr)
+	if perr == nil {
+		// nothing was handed over; if the wallet nevertheless accepts the
+		// transaction it is one of the recorded sends from here on
+		if after.unmined[h] {
+			x.sent = append(x.sent, tx)
+		}
+		return
+	}
+	env.Count("fault.no-backend-at-publish")
+	if after.unmined[h] {
+		x.fail("failed-publish-still-recorded:answer=no-backend", "PublishTransaction returned %q (no chain backend attached) but tx %s is recorded as unconfirmed", perr, short(h))
+		return
+	}
+	if d := before.diff(after); d != "" {
+		x.fail("failed-publish-left-trace:"+diffClass(d)+":answer=no-backend", "PublishTransaction returned %q (no chain backend attached) but the wallet changed: %s", perr, d)
 	}
 }
 
